@@ -135,7 +135,9 @@ class Oracle:
         except Exception as ex:  # noqa
             got = ("RAISED", type(ex).__name__)
         changed = None
-        if value != before:
+        if w.get("iter") and mode == "sync":
+            pass
+        elif value != before:
             changed = f"the input was modified: {before!r} -> {value!r}"
         elif list(args) != a_before or (kwargs or {}) != k_before:
             changed = f"an argument was modified: {a_before!r} {k_before!r} -> {list(args)!r} {kwargs!r}"
@@ -146,11 +148,16 @@ class Oracle:
         return bad, f"[{w.get('mode', 'sync')}] {what}: real={got!r} spec={want!r}" + (f"; {changed}" if changed else "")
 
 
-def with_modes(cases, modes):
+def with_modes(cases, modes, gen_sync=False):
+    """every case in every mode; gen_sync: additionally the sync environment with a generator as input"""
     for w in cases:
         for m in modes:
             w2 = dict(w)
             w2["mode"] = m
+            yield w2
+        if gen_sync and not w.get("iter"):
+            w2 = dict(w)
+            w2["mode"], w2["iter"] = "sync", True
             yield w2
 
 
@@ -186,7 +193,7 @@ class SliceO(Oracle):
 
     def cases(self, size):
         base = ({"fn": "slice", "n": n, "slices": s, "fill": f} for n in range(0, size + 4) for s in range(1, size + 2) for f in (None, "x"))
-        return with_modes(base, self.modes)
+        return with_modes(base, self.modes, gen_sync=True)
 
     def run(self, w):
         items = list(range(w["n"]))
@@ -207,7 +214,7 @@ class BatchO(Oracle):
 
     def cases(self, size):
         base = ({"fn": "batch", "n": n, "linecount": c, "fill": f} for n in range(0, size + 4) for c in range(1, size + 2) for f in (None, "x"))
-        return with_modes(base, self.modes)
+        return with_modes(base, self.modes, gen_sync=True)
 
     def run(self, w):
         items = list(range(w["n"]))
@@ -235,7 +242,7 @@ class UniqueO(Oracle):
 
     def cases(self, size):
         base = ({"fn": "unique", "letters": s, "cs": cs, "shape": sh} for sh in ("str", "dict", "nested") for s in seqs(ALPHA, size if sh == "str" else min(size, 5)) for cs in (False, True))
-        return with_modes(base, self.modes)
+        return with_modes(base, self.modes, gen_sync=True)
 
     def run(self, w):
         items, attr = make_items(w["letters"], w["shape"])
@@ -342,7 +349,7 @@ class GroupByO(Oracle):
             for s in seqs(ALPHA + [None], min(size, 4)):
                 for cs in (False, True):
                     yield {"fn": "groupby", "letters": s, "cs": cs, "default": "Az"}
-        return with_modes(base(), self.modes)
+        return with_modes(base(), self.modes, gen_sync=True)
 
     def items(self, w):
         return [({"k": c, "i": i} if c is not None else {"i": i}) for i, c in enumerate(w["letters"])]
@@ -356,7 +363,13 @@ class GroupByO(Oracle):
         ref = self.items(w)
         real_key = lambda x: x.get("k", w["default"])  # noqa
         err = None
-        if not isinstance(got, list) or any(not (isinstance(g, tuple) and len(g) == 2 and isinstance(g[1], list)) for g in got):
+        if w.get("mode") == "sync" and isinstance(got, list):
+            raw = call_real("groupby", self.items(w), ["k"], kwargs, mode="sync")
+            if any(not (hasattr(g, "grouper") and hasattr(g, "list") and g.grouper is g[0] and g.list is g[1]) for g in raw):
+                err = "the groups are not (grouper, list) named tuples"
+        if err is not None:
+            pass
+        elif not isinstance(got, list) or any(not (isinstance(g, tuple) and len(g) == 2 and isinstance(g[1], list)) for g in got):
             err = "not a list of (grouper, list) pairs"
         else:
             flat = [x for _, grp in got for x in grp]
@@ -416,7 +429,7 @@ class SumO(Oracle):
             for s in seqs([[], [1], [2, 3]], min(size, 4)):
                 for start in ([], [9]):
                     yield {"fn": "sum", "vals": s, "start": start, "shape": "lists"}
-        return with_modes(base(), self.modes)
+        return with_modes(base(), self.modes, gen_sync=True)
 
     def run(self, w):
         vals = copy.deepcopy(w["vals"])
@@ -478,7 +491,7 @@ class JoinO(Oracle):
                     yield {"fn": "join", "items": s, "d": "|", "autoescape": ae, "shape": "attr"}
             for s in seqs([1, "a"], min(size, 3)):
                 yield {"fn": "join", "items": s, "d": 0, "autoescape": False, "shape": "plain"}
-        return with_modes(base(), self.modes)
+        return with_modes(base(), self.modes, gen_sync=True)
 
     def run(self, w):
         vals = [self.val(x) for x in w["items"]]
@@ -598,12 +611,59 @@ class MapSelectO(Oracle):
         return self.verdict(w, got, want, changed, f"{ref!r}|{fn}(*{args!r}, **{kwargs!r})")
 
 
+def spec_parse(attr):
+    """documented: dots separate attributes of attributes; integer parts are looked up as integers"""
+    parts, cur = [], ""
+    for ch in attr + ".":
+        if ch == ".":
+            parts.append(int(cur) if cur and all(c in "0123456789" for c in cur) else cur)
+            cur = ""
+        else:
+            cur += ch
+    return parts
+
+
+class AttrPartsO(Oracle):
+    """make_attrgetter / make_multi_attrgetter: which environment.getitem lookups are made for an attribute string"""
+    name = "attrparts"
+    CH = ["a", "1", ".", ","]
+
+    def cases(self, size):
+        for n in range(0, min(size, 6) + 1):
+            for t in itertools.product(self.CH, repeat=n):
+                yield {"fn": "attrparts", "attr": "".join(t)}
+        for a in (None, 0, 7):
+            yield {"fn": "attrparts", "attr": a}
+
+    def run(self, w):
+        log = []
+
+        class Env(jinja2.Environment):
+            def getitem(self, obj, argument):
+                log.append(argument)
+                return obj
+
+        env, attr = Env(), w["attr"]
+        item = object()
+        if not (isinstance(attr, str) and "," in attr):
+            got = F.make_attrgetter(env, attr)(item)
+            want = [] if attr is None else ([attr] if not isinstance(attr, str) else spec_parse(attr))
+            if got is not item or log != want or [type(x) for x in log] != [type(x) for x in want]:
+                return True, f"make_attrgetter(env, {attr!r}) looks up {log!r}, specification {want!r}"
+            del log[:]
+        got = F.make_multi_attrgetter(env, attr)(item)
+        groups = [[]] if attr is None else ([[attr]] if not isinstance(attr, str) else [spec_parse(a) for a in attr.split(",")])
+        want = [p for g in groups for p in g]
+        bad = not isinstance(got, list) or len(got) != len(groups) or log != want or [type(x) for x in log] != [type(x) for x in want]
+        return bad, f"make_multi_attrgetter(env, {attr!r}) looks up {log!r} and returns {len(got) if isinstance(got, list) else got!r} values, specification {want!r} / {len(groups)} values"
+
+
 ORACLES = {o.name: o for o in (SliceO(), BatchO(), UniqueO(), SortO(), DictSortO(), GroupByO(), MinMaxO(), SumO(), FirstLastO(),
-                               JoinO(), ListReverseO(), MapSelectO())}
+                               JoinO(), ListReverseO(), MapSelectO(), AttrPartsO())}
 FN2ORACLE = {"slice": "slice", "batch": "batch", "unique": "unique", "sort": "sort", "dictsort": "dictsort", "groupby": "groupby",
              "min": "minmax", "max": "minmax", "sum": "sum", "first": "firstlast", "last": "firstlast", "join": "join",
              "list": "listreverse", "reverse": "listreverse", "map": "mapselect", "select": "mapselect", "reject": "mapselect",
-             "selectattr": "mapselect", "rejectattr": "mapselect"}
+             "selectattr": "mapselect", "rejectattr": "mapselect", "attrparts": "attrparts"}
 
 
 def oracle_for(w):
